@@ -226,7 +226,22 @@ func drawLeaf(t *rapid.T, label string, S float64) (sdf.SDF2, string) {
 			base, _ = sdf.Circle2D(r)
 			bd = fmt.Sprintf("circle(%s)", ev.F(r))
 		}
-		switch rapid.IntRange(0, 2).Draw(t, label+".derived-kind") {
+		switch rapid.IntRange(0, 3).Draw(t, label+".derived-kind") {
+		case 3:
+			// the common part of two long bars that cross (or meet in an L): an intersection whose operands
+			// reach far beyond it. It has material (the crossing), so its value is bounded by the distances to
+			// its box like any other operand's; its value max(d0, d1) is a LOWER bound of the distance only.
+			l, w := size(".bar-length")*3, size(".bar-width")
+			shift := 0.0
+			if rapid.Bool().Draw(t, label+".L") {
+				shift = (l - w) / 2
+			}
+			b0 := sdf.Box2D(v2.Vec{X: l, Y: w}, 0)
+			b1 := sdf.Transform2D(sdf.Box2D(v2.Vec{X: w, Y: l}, 0), sdf.Translate2d(v2.Vec{X: -shift, Y: shift}))
+			if rapid.Bool().Draw(t, label+".swap") {
+				b0, b1 = b1, b0
+			}
+			return sdf.Intersect2D(b0, b1), fmt.Sprintf("isect(bar %s x %s, bar crossing at shift %s)", ev.F(l), ev.F(w), ev.F(shift))
 		case 0:
 			d := size(".offset")
 			return sdf.Offset2D(base, d), fmt.Sprintf("offset(%s,%s)", bd, ev.F(d))
